@@ -516,10 +516,10 @@ func TestVerifC05(t *testing.T) {
 				}
 			}
 		case job == "encode":
-			// default encoder: every key and STRING value over {x, =, ",", backslash} up to length 3
+			// default encoder: every key and STRING value over {x, =, ",", backslash, é, 名, 😀} up to length 2 (3 for the four ASCII ones)
 			// (each special character alone, in pairs, next to ordinary ones), one and two attributes
 			r.Section(job)
-			chars := []string{"x", "=", ",", "\\"}
+			chars := []string{"x", "=", ",", "\\", "é", "名", "😀"} // + 2-, 3- and 4-byte characters: the encoding is of the text, not of its bytes one by one
 			var words []string
 			words = append(words, "")
 			for L := 1; L <= 3; L++ {
@@ -529,7 +529,10 @@ func TestVerifC05(t *testing.T) {
 						words = append(words, cur)
 						return
 					}
-					for _, ch := range chars {
+					for ci, ch := range chars {
+						if L == 3 && ci >= 4 {
+							continue // length 3 over the ASCII characters only
+						}
 						rec(cur+ch, n+1)
 					}
 				}
